@@ -624,6 +624,16 @@ fn debug_session(text: &str, markers: &[(u32, u32)], script: &Json) -> DebugOut 
                     match ad.variables(0) {
                         Ok(v) => {
                             let shown: BTreeMap<String, String> = v.locals.iter().map(|x| (x.name.to_string(), x.value.clone())).collect();
+                            // `evaluate NAME` answers what the variables view shows (numbers only:
+                            // the two requests render other values differently).
+                            for (name, val) in shown.iter().filter(|(_, v)| v.parse::<i64>().is_ok()).take(3) {
+                                if let Ok(info) = ad.evaluate(name) {
+                                    *out.stats.entry("evaluate_vs_variables".to_owned()).or_insert(0) += 1;
+                                    if info.result != *val {
+                                        out.problems.push(("debugger-evaluate-wrong".to_owned(), format!("stop {n} at line {line}: evaluate(`{name}`) = `{}` but variables shows `{val}`", info.result)));
+                                    }
+                                }
+                            }
                             out.stops_vars_push(line, shown);
                         }
                         Err(e) => out.problems.push(("debugger-request-failed".to_owned(), format!("variables at stop {n}: {e}"))),
@@ -918,6 +928,10 @@ impl World for C18 {
             }
             if d.result.starts_with("PANIC") {
                 o.violate("panic", "debugger-panic", format!("{what}: {}", kit::clip(&d.result)));
+                break;
+            }
+            if let Some((c, m)) = d.problems.iter().find(|(c, _)| c == "debugger-evaluate-wrong") {
+                o.violate(c, "evaluate", format!("{what}: {m}"));
                 break;
             }
             if let Some((c, m)) = d.problems.iter().find(|(c, _)| c == "debugger-stop-without-reason") {
